@@ -198,4 +198,47 @@ OfdsOK(s) == \A k \in DOMAIN s.ofds : s.files[s.ofds[k].path].ex /\ (s.ofds[k].a
 NoLeak(s) == \A k \in DOMAIN s.ofds : s.ofds[k].open => \E i \in s.owned : Get(s, i).f = "ofd" /\ Get(s, i).id = k
 AllClosedAtEnd(s) == \A k \in DOMAIN FormEnd(s).ofds : ~FormEnd(s).ofds[k].open
 
+
+(* ============================ PART 2: resources (C40) ============================
+   What an evaluation creates and who must release it (pipelineOp.exec, formOp.exec, redirOp.exec,
+   outputCaptureOp.exec / PipePort, Frame.IterateInputs, runParallel, peach).
+
+   Program shape (the abstraction of a generated program):
+     pipeline  = sequence of forms (1..3);   form = [redirs, body]
+     redirs    = sequence over  "fileout" (> file on port 1)  "filein" (< existing file on port 0)
+                 "filefail" (< absent file: raises)  "dupok" (2>&1)  "dupbad" (>&9: raises)  "close" (2>&-)
+     body      = [k, sub]:  "ok" (outputs and returns)  "fail" (raises)  "sleep" (returns; raises when interrupted)
+                 "consume" (reads all its input: Frame.IterateInputs)
+                 "cap"   output capture of the pipeline sub[1]
+                 "par"   run-parallel of the pipelines sub[1..]     (V only)
+                 "peach" peach over three inputs of the pipeline sub[1]   (V only)
+                 "loop"  for-loop running sub[1] three times; "call" a closure running sub[1]   (V only)
+                 "try"   try { sub[1] } catch: swallows the exception   (V only)
+   Resources (elements of `open`), each owned by the activation named in its id:
+     [k |-> "pw"/"pr", id |-> form]   write / read end (file and channel) of the pipe between two forms
+     [k |-> "stage",   id |-> form]   goroutine running a form that is not the last of its pipeline
+     [k |-> "file",    id |-> form, slot |-> "in"/"out"]   file opened by a redirection
+     [k |-> "capw"/"capr"/"capgv"/"capgb", id |-> form]    capture pipe ends and its two reader goroutines
+     [k |-> "merge",   id |-> form, n |-> 1..3]            input-merger goroutines of IterateInputs
+   Ids: pipeline ids have even length (<<>> is the evaluated chunk's pipeline), form id = pipeline id \o <<i>>,
+   the j-th sub-pipeline of a form has id  form id \o <<j>>.
+   The small-step machine is in MCPortsRes; the property: at EvalReturn open = {} (normal, exception and
+   interrupted paths), and stronger: every open resource has a live owner at every moment.
+   FailsP(shape) is the outcome without interruption (raises or not), used by G and V to check that the
+   rendered program took the intended path. With an interruption the outcome is Unspecified. *)
+
+RaisingRedirs == {"filefail", "dupbad"}
+RECURSIVE FailsP(_)
+FailsF(f) == \/ \E i \in DOMAIN f.redirs : f.redirs[i] \in RaisingRedirs
+             \/ f.body.k = "fail"
+             \/ (f.body.k \in {"cap", "par", "peach", "loop", "call"} /\ \E j \in DOMAIN f.body.sub : FailsP(f.body.sub[j]))
+FailsP(p) == \E i \in DOMAIN p : FailsF(p[i])
+
+RECURSIVE PipeAt(_, _)
+PipeAt(p, id) == IF id = <<>> THEN p ELSE PipeAt(p[id[1]].body.sub[id[2]], SubSeq(id, 3, Len(id)))
+FormAt(p, id) == PipeAt(p, SubSeq(id, 1, Len(id) - 1))[id[Len(id)]]
+RECURSIVE PIds(_, _)
+PIds(p, id) == {id} \cup UNION {IF p[i].body.k = "cap" THEN PIds(p[i].body.sub[1], id \o <<i, 1>>) ELSE {} : i \in DOMAIN p}
+FIdsOf(p, pids) == UNION {{pid \o <<i>> : i \in DOMAIN PipeAt(p, pid)} : pid \in pids}
+
 =============================================================================
